@@ -19,7 +19,6 @@ VALUE_PARTS = [
 
 RUN = {'kind': 'fn', 'src': I, 'path': 'impl FeelIterator::fn run', 'key': 'iterations::FeelIterator::run',
          'props': P, 'auto_props': A,
-         'attrs': '#[verifier::exec_allows_no_decreases_clause]',
          'rewrites': [('R1', 2),
                       ('RX', 'R11', r'Value::Number\(iteration_state\.index\.into\(\)\)', 'Value::Number(num_from_isize(iteration_state.index))', 1),
                       ('RX', 'R11', r'FeelContext::default\(\)', 'feel_context_default()', 1)],
@@ -43,6 +42,7 @@ RUN = {'kind': 'fn', 'src': I, 'path': 'impl FeelIterator::fn run', 'key': 'iter
          ],
          'loop_specs': {
              0: {
+                 'props': ['C01', 'C05'],
                  'invariant_except_break': [
                      ('domains', 'same_domains(self.iteration_states@, rev), states_ok(self.iteration_states@), rev.len() >= 1'),
                      ('handler_total', 'forall |c: &FeelContext| #[trigger] handler.requires((c,))'),
@@ -51,6 +51,9 @@ RUN = {'kind': 'fn', 'src': I, 'path': 'impl FeelIterator::fn run', 'key': 'iter
                  'ensures': [
                      ('full_cartesian_product', 'trace_ok(rev, trace), trace.len() == total_from(rev, 0)'),
                  ],
+                 # termination (C05): every round moves the odometer one position up, and there are total_from(..) positions
+                 'decreases': 'total_from(rev, 0) - rank_from(self.iteration_states@, 0)',
+                 'body_suffix': 'proof { lemma_rank_bound(self.iteration_states@, 0); lemma_same_domains_rank(self.iteration_states@, rev, Seq::empty(), 0); }',
              },
              1: {
                  'iter_name': 'it1',
@@ -62,6 +65,7 @@ RUN = {'kind': 'fn', 'src': I, 'path': 'impl FeelIterator::fn run', 'key': 'iter
                  'body_prefix': 'proof { assert(*iteration_state == self.iteration_states@[it1.index@ as int]); assert(st_ok(*iteration_state) && st_in_dom(*iteration_state)); }',
              },
              2: {
+                 'props': ['C01', 'C05'],
                  'iter_name': 'itx',
                  'invariant': [
                      ('range', 'itx.seq().len() == before.len()'),
@@ -120,9 +124,9 @@ NOT_DECIDED = {
         'an EMPTY list domain (known finding, see known_findings.json): run() is proved under the precondition that every domain is non-empty',
         'For/Some/Every ExpressionEvaluator::evaluate (closures capturing the scope and the result accumulator) and everything that wires them to the AST (build_for/build_some/build_every)',
         'that the iteration context binds each variable name to the value at its current position (names must be pairwise distinct); only the enumeration of positions is proved',
-        'termination of run() (no decreases clause); the enumeration is finite: the loop exits exactly after total_from(..) handler calls',
+        
     ],
-    'C05': ['run(): no arithmetic overflow for any isize range bounds, no out-of-bounds indexing (automatic obligations); termination not proved'],
+    'C05': ['run(): no arithmetic overflow for any isize range bounds, no out-of-bounds indexing (automatic obligations); termination proved (decreases total - rank of the odometer)'],
 }
 ASSUMPTIONS = [
     'A-std: <[T]>::reverse reverses; Vec/slice get, push, iteration specs of vstd',
